@@ -115,6 +115,13 @@ pub fn replay(w: &Value) -> Option<bool> {
             });
             Some(r.is_ok())
         }
+        "alias-cycle-child" => {
+            // the failure is a stack overflow (process abort): replayed in a child process
+            let exe = std::env::current_exe().ok()?;
+            let o = std::process::Command::new(exe).arg("ALIASCYCLE").output().ok()?;
+            let text = String::from_utf8_lossy(&o.stdout).to_string();
+            Some(o.status.success() && text.contains("function b(){}") && text.contains("a()"))
+        }
         "generic-cosmetic-rejected" => {
             // none of the (malformed, generic) rules may load: nothing is hidden anywhere
             let rules = strs(&w["rules"]);
